@@ -25,8 +25,14 @@ def showStatus : Status → String
 
 def chars (s : String) : List Char := if s = "-" then [] else s.toList
 
+/-- fault script: '0' = the call succeeds; '1' or a kind letter (generic, leveldb closed / read-only / snapshot released /
+    iterator released / corrupted, plain or %w-wrapped) = the call fails; a leading 'W' (absent keys are reported with a
+    wrapped ErrNotFound) does not change the model -/
 def bits (s : String) : Option (List Bool) :=
-  (chars s).mapM fun c => if c = '0' then some false else if c = '1' then some true else none
+  let cs := match chars s with
+    | 'W' :: r => r
+    | r => r
+  cs.mapM fun c => if c = '0' then some false else if "1cCrRsSiIkK".toList.contains c then some true else none
 
 def delivery (script : String) : Option Delivery :=
   ((chars script).mapM ansOf).map fun as => (List.range as.length).zip as
